@@ -85,11 +85,20 @@ package plenccore
 //@   safety C18 C04
 //@   assigns nothing
 //@   loop 1 unroll 11                  # range data: returns at i > 9 at the latest
-//@   loop 2 invariant[C18,C04] n <= offset && 0 < offset
-//@   loop 2 decreases count - i
+//@   loop 2 invariant[C18,C04] 0 < offset && offset <= len(data)
+//@   loop 2 decreases len(data) - offset        # every entry consumes at least its length byte
 //@   ensures[C18,C04] r1 == nil ==> 0 < r0 && r0 <= len(data)
 //@   ensures[C18,C03] forall u uint64 :: wt == 0 && len(data) >= vlen(u) && at(data, 0, venc(u), 10) ==> r1 == nil && r0 == vlen(u)
 //@   ensures[C18,C03] wt == 1 && len(data) >= 8 ==> r1 == nil && r0 == 8
 //@   ensures[C18,C03] wt == 5 && len(data) >= 4 ==> r1 == nil && r0 == 4
 //@   ensures[C18,C03] forall l uint64 :: wt == 2 && l < (1 << 40) && len(data) >= vlen(l) + int(l) && at(data, 0, venc(l), 10) ==> r1 == nil && r0 == vlen(l) + int(l)
 //@   ensures[C18] wt != 0 && wt != 1 && wt != 2 && wt != 3 && wt != 5 ==> r1 != nil
+//@   # counted slices (wire type 3): under the ghost hypothesis wfslice, data holds scount() entries,
+//@   # entry i being a varint length slen(i) at sstart(i) followed by that many bytes
+//@   ghostdef wfslice() ==> scount() < (1 << 40) && len(data) >= vlen(scount()) && at(data, 0, venc(scount()), 10) && sstart(0) == vlen(scount())
+//@   # the per-entry definition, instantiated at the loop counter (an instance of: for all k < scount())
+//@   loop 2 ghostdef wfslice() && i < scount() ==> 0 < sstart(i) && slen(i) < (1 << 40) \
+//@                && sstart(i) + vlen(slen(i)) + int(slen(i)) <= len(data) && at(data, sstart(i), venc(slen(i)), 10) \
+//@                && sstart(i + 1) == sstart(i) + vlen(slen(i)) + int(slen(i))
+//@   loop 2 invariant[C18,C03] wfslice() && wt == 3 ==> count == scount() && i <= count && offset == sstart(i)
+//@   ensures[C18,C03] wfslice() && wt == 3 ==> r1 == nil && r0 == sstart(scount())
